@@ -7,15 +7,19 @@ A `Hexital` holds a SOURCE member `A` and a DEPENDENT leaf member `B` whose `inp
 output: `A`'s name (scalar-valued `A`) or a dotted field of a dict-valued `A`.  Both live on the
 default manager; one `Hexital.append` is "the manager appends, then `A.calculate()`, then
 `B.calculate()`" – the `pass` of `TComp.seq X Q`, `X` the component of `A`'s tree and `Q` the tolerant
-leaf component of `B`.  This file
+leaf component of `B`.  This file (engine level; the Hexital level is Gen/ChainHex.lean)
 
-1. gives the tolerant leaf contracts of SMA / RMA / ROC for an input seen through read keys (EMA:
-   `emaTG`, WMA: `wmaT` exist already), the dependent kinds as one predicate `DepLeaf`,
-2. packages a source tree as a lawful component (`SrcComp`; instances: every tolerant leaf, MACD,
-   Supertrend, KC), builds `pairComp`, its law, the row-major `PairSpec` of the pair,
-3. proves the engine-level refinement (`PairSpec.engine`), and
-4. the Hexital-level theorem `pair_live_eq_batch` for any manager spec (base timeframe, collapsing
-   timeframe, fill), with the base-timeframe corollary `C01_pair_base`.
+1. gives the tolerant leaf contracts of SMA / RMA / ROC for an input seen through read keys (`smaTG`,
+   `rmaTG`, `rocTG`; EMA: `emaTG`, WMA: `wmaT` exist already), the dependent kinds as `DepKind` with the
+   input addressing `InputOf main inp` (a key or a dotted field), `depComp`;
+2. packages an engine as a lawful component (`EngComp`, `TreeComp A`; `EngComp.seq`), with instances
+   `TreeComp.ofLeaf`, `srcLeaf`, `macdTreeComp`, `kcTreeComp`, `stTreeComp`, `bbTreeComp`, `stochTreeComp`,
+   `tsiTreeComp`, `adxTreeComp` (one predicate: `ChainSource`), builds `pairComp`, and the row-major spec
+   of the pair `pairSpec : PairSpec A B` (`EngSpec`: `StepSpec` + `StepLaw` + engine refinement;
+   `pairSpec_rowStep`, `pair_engine`);
+3. proves the generic refinement of an engine on a manager (`engRun`: construction, `calculate()`,
+   appends; `EngSpec.live_refines`, `EngSpec.batch_iff`, `EngSpec.live_eq_batch`) for every `MgrSpec`;
+4. chains of any length: `chainEngine`, `ChainComps`, `chainSpec`.
 -/
 namespace Hex
 set_option linter.unusedSectionVars false
@@ -313,6 +317,194 @@ theorem macdTreeComp_reads :
 
 end macd
 
+section kc
+variable (name : String) (round : Nat) (p : Int) (input : String) (m : Num F)
+  (hp : 1 ≤ p) (hn : KcNames name) (hin : NoDot input ∧ input ∈ Candle.attrNames)
+
+/-- the Keltner-Channel tree (ATR subtree with its TR helper, EMA helper, own dict) -/
+def kcTreeComp : TreeComp (kcP (F := F) name round p input m) where
+  X := kcComp name round p input m hp hn hin
+  law := kcComp_law name round p input m hp hn hin
+  pass_eq := by
+    intro cs
+    rw [engineCalc_kc]
+    show _ = (do
+      let cs₁ ← (do let c ← leafCalc (kcT name) cs; leafCalc (kcA name p) c)
+      (do let c ← leafCalc (kcE name p input) cs₁; leafCalc (kcP name round p input m) c))
+    cases leafCalc (kcT (F := F) name) cs with
+    | error e => rfl
+    | ok c₁ => simp only [bind, Except.bind]
+  wnames := by
+    intro k hk
+    rw [allNames_kc]
+    simp [kcComp, TComp.seq, kcCompT, kcCompA, kcCompE, kcCompP, leafComp, kcT_name, kcA_name, kcE_name,
+      kcP_name] at hk ⊢
+    rcases hk with h | h | h | h <;> simp [h]
+
+theorem kcTreeComp_reads :
+    (kcTreeComp (F := F) name round p input m hp hn hin).ReadsWithin (kcP (F := F) name round p input m).allNames := by
+  intro k hk
+  rw [allNames_kc]
+  simp [kcTreeComp, kcComp, TComp.seq, kcCompT, kcCompA, kcCompE, kcCompP, leafComp, trT, atrOwnT, emaT, kcOwnT,
+    kcT_name, kcA_name, kcE_name, kcP_name] at hk ⊢
+  rcases hk with h | h | h | h | h | h | h <;> simp [h]
+
+end kc
+
+section st
+variable (name : String) (round : Nat) (p : Int) (input : String) (m : Num F) (hp : 1 ≤ p) (hn : StNames name)
+
+/-- the Supertrend tree (ATR subtree, HLA helper, own `_data` series and dict) -/
+def stTreeComp : TreeComp (stP (F := F) name round p input m) where
+  X := stComp name round p input m hp hn
+  law := stComp_law name round p input m hp hn
+  pass_eq := by
+    intro cs
+    rw [engineCalc_st]
+    show _ = (do
+      let cs₁ ← (do let c ← leafCalc (stTr name) cs; leafCalc (stA name p) c)
+      (do let c ← leafCalc (stH name) cs₁
+          Gen.nodeCalc (specWith (stP name round p input m)
+            (fun cs i => Calc.supertrend (dOps ((stP (F := F) name round p input m).name ++ "_data") i)
+              { cs := cs, i := i, name := (stP (F := F) name round p input m).name } m)) c))
+    cases leafCalc (stTr (F := F) name) cs with
+    | error e => rfl
+    | ok c₁ =>
+      simp only [bind, Except.bind]
+      rfl
+  wnames := by
+    intro k hk
+    rw [allNames_st]
+    simp [stComp, TComp.seq, stCompT, stCompA, stCompH, stCompP, leafComp, dataComp, stTr_name, stA_name,
+      stH_name, stP_name] at hk ⊢
+    rcases hk with h | h | h | h | h <;> simp [h]
+
+theorem stTreeComp_reads :
+    (stTreeComp (F := F) name round p input m hp hn).ReadsWithin (stP (F := F) name round p input m).allNames := by
+  intro k hk
+  rw [allNames_st]
+  simp [stTreeComp, stComp, TComp.seq, stCompT, stCompA, stCompH, stCompP, leafComp, dataComp, trT, atrOwnT, hlaT,
+    stT, stTr_name, stA_name, stH_name, stP_name] at hk ⊢
+  rcases hk with h | h | h | h | h | h | h | h <;> simp [h]
+
+end st
+
+section bb
+variable (name : String) (round : Nat) (p : Int) (input : String)
+  (hp : 1 ≤ p) (hn : BbNames name) (hin : NoDot input ∧ input ∈ Candle.attrNames)
+
+/-- the Bollinger-Bands tree (STDEV data helper, SMA helper, own dict) -/
+def bbTreeComp : TreeComp (bbP (F := F) name round p input) where
+  X := bbComp name round p input hp hn hin
+  law := bbComp_law name round p input hp hn hin
+  pass_eq := by
+    intro cs
+    rw [engineCalc_bb]
+    rfl
+  wnames := by
+    intro k hk
+    rw [allNames_bb]
+    simp [bbComp, TComp.seq, bbCompS, bbCompM, bbCompP, dataComp, leafComp, bbS_name, bbM_name, bbP_name] at hk ⊢
+    rcases hk with h | h | h | h <;> simp [h]
+
+theorem bbTreeComp_reads :
+    (bbTreeComp (F := F) name round p input hp hn hin).ReadsWithin (bbP (F := F) name round p input).allNames := by
+  intro k hk
+  rw [allNames_bb]
+  simp [bbTreeComp, bbComp, TComp.seq, bbCompS, bbCompM, bbCompP, dataComp, leafComp, stdevT, smaT, bbOwnT,
+    bbS_name, bbM_name, bbP_name] at hk ⊢
+  rcases hk with h | h | h | h | h | h <;> simp [h]
+
+end bb
+
+section stoch
+variable (name : String) (round : Nat) (p slow smoothK : Int) (input : String)
+  (hp : 2 ≤ p) (hs : 1 ≤ slow) (hk : 1 ≤ smoothK) (hn : StochNames name)
+  (hin : NoDot input ∧ input ∈ Candle.attrNames)
+
+/-- the Stochastic tree (own `_data` series driving two managed SMAs) -/
+def stochTreeComp : TreeComp (stochP (F := F) name round p slow smoothK input) where
+  X := stochCompP name round p slow smoothK input
+  law := stochCompP_law name round p slow smoothK input hn (by omega) hs hk hin
+  pass_eq := fun cs => engineCalc_stoch name round p slow smoothK input hp cs
+  wnames := by
+    intro k hk'
+    rw [allNames_stoch]
+    simp [stochCompP] at hk' ⊢
+    rcases hk' with h | h | h | h <;> simp [h]
+
+theorem stochTreeComp_reads :
+    (stochTreeComp (F := F) name round p slow smoothK input hp hs hk hn hin).ReadsWithin
+      (stochP (F := F) name round p slow smoothK input).allNames := by
+  intro k hk'
+  rw [allNames_stoch]
+  simp [stochTreeComp, stochCompP] at hk' ⊢
+  rcases hk' with h | h | h <;> simp [h]
+
+end stoch
+
+section tsi
+variable (name : String) (round : Nat) (p smooth : Int) (input : String)
+  (hp : 1 ≤ p) (hs : 1 ≤ smooth) (hn : TsiNames name) (hin : NoDot input ∧ input ∈ Candle.attrNames)
+
+/-- the TSI tree (own `_data` series driving two two-level EMA chains) -/
+def tsiTreeComp : TreeComp (tsiP (F := F) name round p smooth input) where
+  X := tsiCompP name round p smooth input hp hs hn
+  law := tsiCompP_law name round p smooth input hp hs hn hin
+  pass_eq := fun cs => engineCalc_tsi name round p smooth input cs
+  wnames := by
+    intro k hk
+    rw [allNames_tsi]
+    have hw : (tsiCompP (F := F) name round p smooth input hp hs hn).wkeys
+        = [name ++ "_data", name ++ "_first", name ++ "_second", name ++ "_abs_first",
+           name ++ "_abs_second"] ++ [name] := rfl
+    rw [hw] at hk
+    simp at hk ⊢
+    rcases hk with h | h | h | h | h | h <;> simp [h]
+
+theorem tsiTreeComp_reads :
+    (tsiTreeComp (F := F) name round p smooth input hp hs hn hin).ReadsWithin
+      (tsiP (F := F) name round p smooth input).allNames := by
+  intro k hk
+  rw [allNames_tsi]
+  simp [tsiTreeComp, tsiCompP, guardOwn, tsiX_rkeys] at hk ⊢
+  rcases hk with h | h | h | h | h | h | h | h | h | h <;> simp [h]
+
+end tsi
+
+section adx
+variable (name : String) (round : Nat) (p signal : Int) (hp : 1 ≤ p) (hs : 1 ≤ signal) (hn : AdxNames name)
+
+/-- the ADX tree (prior ATR subtree, own `_data` series driving managed RMAs) -/
+def adxTreeComp : TreeComp (adxP (F := F) name round p signal) where
+  X := adxComp name round p signal hp hn
+  law := adxComp_law name round p signal hp hs hn
+  pass_eq := by
+    intro cs
+    rw [engineCalc_adx]
+    show _ = (do
+      let cs₁ ← (do let c ← leafCalc (adxTr name) cs; leafCalc (adxA name p) c)
+      Gen.nodeCalc (specWith (adxP name round p signal) (adxC name p signal)) cs₁)
+    cases leafCalc (adxTr (F := F) name) cs with
+    | error e => rfl
+    | ok c₁ => simp only [bind, Except.bind]
+  wnames := by
+    intro k hk
+    rw [allNames_adx]
+    simp [adxComp, adxCompX, TComp.seq, adxCompT, adxCompA, adxCompP, adxWKeys, leafComp, adxTr_name,
+      adxA_name] at hk ⊢
+    rcases hk with h | h | h | h | h | h | h <;> simp [h]
+
+theorem adxTreeComp_reads :
+    (adxTreeComp (F := F) name round p signal hp hs hn).ReadsWithin (adxP (F := F) name round p signal).allNames := by
+  intro k hk
+  rw [allNames_adx]
+  simp [adxTreeComp, adxComp, adxCompX, TComp.seq, adxCompT, adxCompA, adxCompP, adxRKeys, leafComp, trT, atrOwnT,
+    adxTr_name, adxA_name] at hk ⊢
+  rcases hk with h | h | h | h | h | h | h | h <;> simp [h]
+
+end adx
+
 /-! ### the dependent leaf -/
 
 /-- `inp` addresses what is stored under the key `main`: the key itself (a scalar reading) or a
@@ -341,15 +533,26 @@ inductive DepKind (inp : String) : Kind F → Type
   | wma (p : Int) : 1 ≤ p → DepKind inp (.wma p inp)
   | roc (p : Int) : 0 ≤ p → DepKind inp (.roc p inp)
 
+/-- the tolerant contract of such a leaf, for an input seen through the read keys `rk` -/
+def DepKind.contractG {inp : String} {k : Kind F} (d : DepKind (F := F) inp k) (Z : Ind F) (hk : Z.kind = k)
+    (hname : IsKey Z.name) (rk : List String) (hsee : Sees F (Z.name :: rk) inp) (hind : Indep F Z.name inp) :
+    TContract Z :=
+  match k, d, hk with
+  | _, .sma p hp, hk => smaTG Z p inp hk hp hname rk hsee hind
+  | _, .ema p sm hp, hk => emaTG Z p inp sm hk hp hname rk hsee hind
+  | _, .rma p hp, hk => rmaTG Z p inp hk hp hname rk hsee hind
+  | _, .wma p hp, hk => wmaT Z p inp hk hp hname rk hsee hind
+  | _, .roc p hp, hk => rocTG Z p inp hk hp hname rk hsee hind
+
+theorem DepKind.contractG_rkeys {inp : String} {k : Kind F} (d : DepKind (F := F) inp k) (Z : Ind F)
+    (hk : Z.kind = k) (hname : IsKey Z.name) (rk : List String) (hsee : Sees F (Z.name :: rk) inp)
+    (hind : Indep F Z.name inp) : (d.contractG Z hk hname rk hsee hind).rkeys = rk := by
+  cases d <;> rfl
+
 /-- the tolerant contract of a dependent leaf reading under `main` -/
 def DepKind.contract {inp : String} {k : Kind F} (d : DepKind (F := F) inp k) (Z : Ind F) (hk : Z.kind = k)
     (hname : IsKey Z.name) (main : String) (hin : InputOf main inp) (hne : Z.name ≠ main) : TContract Z :=
-  match k, d, hk with
-  | _, .sma p hp, hk => smaTG Z p inp hk hp hname [main] (hin.sees _ (by simp)) (hin.indep _ hne)
-  | _, .ema p sm hp, hk => emaTG Z p inp sm hk hp hname [main] (hin.sees _ (by simp)) (hin.indep _ hne)
-  | _, .rma p hp, hk => rmaTG Z p inp hk hp hname [main] (hin.sees _ (by simp)) (hin.indep _ hne)
-  | _, .wma p hp, hk => wmaT Z p inp hk hp hname [main] (hin.sees _ (by simp)) (hin.indep _ hne)
-  | _, .roc p hp, hk => rocTG Z p inp hk hp hname [main] (hin.sees _ (by simp)) (hin.indep _ hne)
+  d.contractG Z hk hname [main] (hin.sees _ (by simp)) (hin.indep _ hne)
 
 theorem DepKind.isLeaf {inp : String} {k : Kind F} (d : DepKind (F := F) inp k) (name : String) (round : Nat) :
     IsLeaf (mkTop k name round) := by
@@ -361,6 +564,38 @@ def depComp {inp : String} {k : Kind F} (d : DepKind (F := F) inp k) (nameB : St
     TreeComp (mkTop k nameB round) :=
   TreeComp.ofLeaf _ (d.isLeaf nameB round)
     (d.contract _ (mkTop_kind _ _ _) (by rw [mkTop_name]; exact hname) main hin (by rw [mkTop_name]; exact hne))
+
+theorem depComp_reads {inp : String} {k : Kind F} (d : DepKind (F := F) inp k) (nameB : String) (round : Nat)
+    (hname : IsKey nameB) (main : String) (hin : InputOf main inp) (hne : nameB ≠ main) :
+    (depComp d nameB round hname main hin hne).ReadsWithin [nameB, main] := by
+  intro k' hk'
+  have := TreeComp.ofLeaf_reads _ (d.isLeaf nameB round)
+    (d.contract _ (mkTop_kind _ _ _) (by rw [mkTop_name]; exact hname) main hin (by rw [mkTop_name]; exact hne)) k' hk'
+  unfold DepKind.contract at this
+  rw [DepKind.contractG_rkeys, mkTop_name] at this
+  exact this
+
+theorem EngComp.ReadsWithin.mono {E : List (Candle F) → PyM (List (Candle F))} {names : List String}
+    {S : EngComp E names} {r r' : List String} (h : S.ReadsWithin r) (hsub : ∀ k ∈ r, k ∈ r') :
+    S.ReadsWithin r' := fun k hk => hsub k (h k hk)
+
+/-- the same kinds over a candle attribute, as SOURCE trees: `A = mkTop k nameA round` -/
+def srcLeaf {inp : String} {k : Kind F} (d : DepKind (F := F) inp k) (nameA : String) (round : Nat)
+    (hname : IsKey nameA) (hattr : NoDot inp ∧ inp ∈ Candle.attrNames) : TreeComp (mkTop k nameA round) :=
+  TreeComp.ofLeaf _ (d.isLeaf nameA round)
+    (d.contractG _ (mkTop_kind _ _ _) (by rw [mkTop_name]; exact hname) []
+      (sees_attr _ _ hattr.1 hattr.2) (indep_attr _ _ hattr.1 hattr.2))
+
+theorem srcLeaf_reads {inp : String} {k : Kind F} (d : DepKind (F := F) inp k) (nameA : String) (round : Nat)
+    (hname : IsKey nameA) (hattr : NoDot inp ∧ inp ∈ Candle.attrNames) :
+    (srcLeaf d nameA round hname hattr).ReadsWithin (mkTop k nameA round).allNames := by
+  intro k' hk'
+  have := TreeComp.ofLeaf_reads _ (d.isLeaf nameA round)
+    (d.contractG _ (mkTop_kind _ _ _) (by rw [mkTop_name]; exact hname) []
+      (sees_attr _ _ hattr.1 hattr.2) (indep_attr _ _ hattr.1 hattr.2)) k' hk'
+  rw [DepKind.contractG_rkeys] at this
+  rw [allNames_leaf _ (d.isLeaf nameA round)]
+  exact this
 
 /-! ### the pair -/
 
@@ -375,12 +610,15 @@ def pairComp {A B : Ind F} (SA : TreeComp A) (SB : TreeComp B) (hclosed : SA.Rea
     (hdis : ∀ k ∈ A.allNames, k ∉ B.allNames) : EngComp (pairEngine A B) (A.allNames ++ B.allNames) :=
   SA.seq SB (seqOK_of_names SA SB hclosed hdis hdis)
 
+/-- the type of a row-major spec of the pair `A`, `B` -/
+abbrev PairSpec (A B : Ind F) := EngSpec (pairEngine A B) (A.allNames ++ B.allNames)
+
 /-- **`PairSpec`**: the row-major spec of the pair on raw candles – one row step = `A`'s row step,
 then `B`'s reading from the prefix – with its step laws and the engine-level refinement
 (`EngSpec.engine`: "`A.calculate()` then `B.calculate()`" on `done ++ raw` returns iff the pair's
 row-major run over the longer stream does, with the same candles). -/
 def pairSpec {A B : Ind F} (SA : TreeComp A) (SB : TreeComp B) (hclosed : SA.ReadsWithin A.allNames)
-    (hdis : ∀ k ∈ A.allNames, k ∉ B.allNames) : EngSpec (pairEngine A B) (A.allNames ++ B.allNames) :=
+    (hdis : ∀ k ∈ A.allNames, k ∉ B.allNames) : PairSpec A B :=
   (pairComp SA SB hclosed hdis).spec
 
 /-- one row step of the pair, spelled out: `A`'s component value on the prefix, stored; then `B`'s on
@@ -519,4 +757,114 @@ theorem EngSpec.live_eq_batch (T : EngSpec E names) (M : MgrSpec F) (init : List
 
 end run
 
+/-! ### the covered sources under one predicate -/
+
+/-- **Source kinds** `k` such that `mkTop k name round` is available as a lawful component reading
+within its own names: the five leaf averages over a candle attribute, MACD, KC, Supertrend, BBANDS,
+STOCH, TSI, ADX (with the name / parameter conditions of their tree specs). -/
+inductive ChainSource (name : String) : Kind F → Prop
+  | leaf (inp : String) (k : Kind F) : DepKind (F := F) inp k → IsKey name → AttrInput inp → ChainSource name k
+  | macd (fast slow signal : Int) (input : String) : 1 ≤ fast → 1 ≤ slow → 1 ≤ signal → MacdNames name →
+      AttrInput input → ChainSource name (.macd fast slow signal input)
+  | kc (p : Int) (input : String) (m : Num F) : 1 ≤ p → KcNames name → AttrInput input →
+      ChainSource name (.kc p input m)
+  | supertrend (p : Int) (input : String) (m : Num F) : 1 ≤ p → StNames name →
+      ChainSource name (.supertrend p input m)
+  | bbands (p : Int) (input : String) : 1 ≤ p → BbNames name → AttrInput input → ChainSource name (.bbands p input)
+  | stoch (p slow smoothK : Int) (input : String) : 2 ≤ p → 1 ≤ slow → 1 ≤ smoothK → StochNames name →
+      AttrInput input → ChainSource name (.stoch p slow smoothK input)
+  | tsi (p smooth : Int) (input : String) : 1 ≤ p → 1 ≤ smooth → TsiNames name → AttrInput input →
+      ChainSource name (.tsi p smooth input)
+  | adx (p signal : Int) : 1 ≤ p → 1 ≤ signal → AdxNames name → ChainSource name (.adx p signal)
+
+theorem ChainSource.comp {name : String} {k : Kind F} (h : ChainSource name k) (round : Nat) :
+    ∃ SA : TreeComp (mkTop k name round), SA.ReadsWithin (mkTop k name round).allNames := by
+  cases h with
+  | leaf inp k d hk hin => exact ⟨srcLeaf d name round hk hin, srcLeaf_reads d name round hk hin⟩
+  | macd fast slow signal input hf hs hg hn hin =>
+    exact ⟨macdTreeComp name round fast slow signal input hf hs hg hn hin,
+      macdTreeComp_reads name round fast slow signal input hf hs hg hn hin⟩
+  | kc p input m hp hn hin =>
+    exact ⟨kcTreeComp name round p input m hp hn hin, kcTreeComp_reads name round p input m hp hn hin⟩
+  | supertrend p input m hp hn =>
+    exact ⟨stTreeComp name round p input m hp hn, stTreeComp_reads name round p input m hp hn⟩
+  | bbands p input hp hn hin =>
+    exact ⟨bbTreeComp name round p input hp hn hin, bbTreeComp_reads name round p input hp hn hin⟩
+  | stoch p slow smoothK input hp hs hk hn hin =>
+    exact ⟨stochTreeComp name round p slow smoothK input hp hs hk hn hin,
+      stochTreeComp_reads name round p slow smoothK input hp hs hk hn hin⟩
+  | tsi p smooth input hp hs hn hin =>
+    exact ⟨tsiTreeComp name round p smooth input hp hs hn hin, tsiTreeComp_reads name round p smooth input hp hs hn hin⟩
+  | adx p signal hp hs hn =>
+    exact ⟨adxTreeComp name round p signal hp hs hn, adxTreeComp_reads name round p signal hp hs hn⟩
+
+/-! ### chains of any length -/
+
+/-- every name written by the trees of a member list -/
+def namesOf (ts : List (Ind F)) : List String := ts.flatMap (·.allNames)
+
+/-- `calculate()` of every tree, in order, on the same candle list -/
+def chainEngine (ts : List (Ind F)) (cs : List (Candle F)) : PyM (List (Candle F)) :=
+  ts.foldlM (fun cs t => engineCalc t cs) cs
+
+theorem chainEngine_cons (t : Ind F) (r : List (Ind F)) (cs : List (Candle F)) :
+    chainEngine (t :: r) cs = engSeq (engineCalc t) (chainEngine r) cs := by
+  simp [chainEngine, engSeq, List.foldlM_cons]
+
+theorem chainEngine_single (t : Ind F) (cs : List (Candle F)) : chainEngine [t] cs = engineCalc t cs := by
+  unfold chainEngine
+  simp only [List.foldlM_cons, List.foldlM_nil]
+  cases engineCalc t cs <;> rfl
+
+theorem chainEngine_pair (A B : Ind F) (cs : List (Candle F)) : chainEngine [A, B] cs = pairEngine A B cs := by
+  rw [chainEngine_cons]
+  show (do let c ← engineCalc A cs; chainEngine [B] c) = (do let c ← engineCalc A cs; engineCalc B c)
+  cases engineCalc A cs with
+  | error e => rfl
+  | ok c => exact chainEngine_single B c
+
+/-- the same component for an extensionally equal engine and a larger name list -/
+def EngComp.retag {E E' : List (Candle F) → PyM (List (Candle F))} {n n' : List String} (S : EngComp E n)
+    (hE : ∀ cs, E' cs = E cs) (hn : ∀ k ∈ n, k ∈ n') : EngComp E' n' where
+  X := S.X
+  law := S.law
+  pass_eq := fun cs => (hE cs).trans (S.pass_eq cs)
+  wnames := fun k hk => hn k (S.wnames k hk)
+
+/-- **A chain of members given as components**: every member reads (besides the bare candles) only
+entries under the names of the members before it (`pre` at the head of the list) and its own, and no name
+occurs in two members.  So a member may take any earlier member's output as its input. -/
+inductive ChainComps : List String → List (Ind F) → Type 1
+  | single (pre : List String) (t : Ind F) (S : TreeComp t) (hr : S.ReadsWithin (pre ++ t.allNames)) :
+      ChainComps pre [t]
+  | cons (pre : List String) (t t' : Ind F) (r : List (Ind F)) (S : TreeComp t)
+      (hr : S.ReadsWithin (pre ++ t.allNames)) (hdis : ∀ k ∈ pre ++ t.allNames, k ∉ namesOf (t' :: r))
+      (rest : ChainComps (pre ++ t.allNames) (t' :: r)) : ChainComps pre (t :: t' :: r)
+
+/-- the whole chain as one lawful component -/
+def ChainComps.comp : {pre : List String} → {ts : List (Ind F)} → ChainComps pre ts →
+    EngComp (chainEngine ts) (namesOf ts)
+  | _, _, .single _ t S _ =>
+    S.retag (chainEngine_single t) (fun k hk => by simp [namesOf, hk])
+  | _, _, .cons pre t t' r S hr hdis rest =>
+    (S.seq rest.comp (seqOK_of_names S rest.comp hr hdis
+      (fun k hk => hdis k (List.mem_append_right _ hk)))).retag
+      (chainEngine_cons t (t' :: r)) (fun k hk => by simpa [namesOf] using hk)
+
+/-- **the row-major spec of a chain** with its step laws and the engine-level refinement -/
+def chainSpec {ts : List (Ind F)} (c : ChainComps [] ts) : EngSpec (chainEngine ts) (namesOf ts) := c.comp.spec
+
+/-- the pair as a chain of two -/
+def ChainComps.pair {A B : Ind F} (SA : TreeComp A) (SB : TreeComp B) (hclosed : SA.ReadsWithin A.allNames)
+    (hB : SB.ReadsWithin (A.allNames ++ B.allNames)) (hdis : ∀ k ∈ A.allNames, k ∉ B.allNames) :
+    ChainComps [] [A, B] :=
+  .cons [] A B [] SA (by simpa using hclosed) (by simpa [namesOf] using hdis)
+    (.single _ B SB (by simpa using hB))
+
 end Hex.Chain
+
+#print axioms Hex.Chain.pairComp
+#print axioms Hex.Chain.pair_engine
+#print axioms Hex.Chain.EngSpec.live_eq_batch
+#print axioms Hex.Chain.ChainSource.comp
+#print axioms Hex.Chain.chainSpec
